@@ -255,13 +255,15 @@ def seq_alphabet(name):
         else:
             ops.append(('slice', t, 1, None, t))
             ops.append(('slice', t, None, -1, OTHER[t]))
-            ops.append(('slice', t, None, None, OTHER[t], -1))   # other = t[::-1]
     for t in 'AB':
         if wide:
             ops.append(('index', t))
             ops.append(('len', t))
         else:
             ops.append(('look', t))                         # len(t) and t[i] for every i
+    if wide:
+        for t in 'AB':
+            ops.append(('mread', t))    # the munge readers applied to the live monitor (they only read it)
     for t in 'AB':
         for u in 'AB':
             ops.append(('add', t, u))
@@ -358,6 +360,26 @@ class SeqState(object):
                     if kind == 'look' and len(real[t]) != len(ref[t]):
                         msgs.append(('len', 'len(%s) = %r, %d records expected' % (t, len(real[t]), len(ref[t]))))
                 nontrivial = len(ref[t]) > 0
+            elif kind == 'mread':
+                import mystic.munge as mg
+                readonly = {s: deep(real[s]) for s in 'AB'} if judge else {}
+                n = len(ref[t])
+                want_x = [list(r[0]) if hasattr(r[0], '__len__') else r[0] for r in ref[t].key()]
+                for rname, reader in (('read_monitor', lambda m: mg.read_monitor(m, id=True)),
+                                      ('read_trajectories', lambda m: mg.read_trajectories(m, iter=True)),
+                                      ('read_history', lambda m: mg.read_history(m, iter=True) if len(m) else None)):
+                    try:
+                        out = reader(real[t])
+                    except Exception as e:
+                        if judge:
+                            msgs.append(('munge_reader_raised', '%s(%s) raised %s: %s' % (rname, t, type(e).__name__, e)))
+                        continue
+                    if judge and out is not None and rname != 'read_history':
+                        xs = out[0] if rname == 'read_monitor' else out[1]
+                        if len(xs) != n:
+                            msgs.append(('munge_reader_len', '%s(%s) returned %d parameter records for %d recorded' % (rname, t, len(xs), n)))
+                label = 'mread:%s' % ('empty' if not n else 'nonempty')
+                nontrivial = n > 0
             elif kind == 'len':
                 if judge:
                     readonly = {s: deep(real[s]) for s in 'AB'}
